@@ -680,9 +680,27 @@ func c11Context(c *Ctx, br *callBridge) {
 				}
 			}
 		}
-		if bo.Op == token.GTR {
-			if l, ok := bo.X.(*ssa.Call); ok && l.Call.IsInvoke() && l.Call.Method.Name() == "NumIn" {
-				if n, ok := constIntArg(bo.Y); ok && n == 0 {
+	})
+	// ... evaluated only where NumIn() >= 1 holds: some edge dominating the In(0) call implies it
+	instrs(g, func(b *ssa.BasicBlock, i int, in ssa.Instruction) {
+		l, ok := in.(*ssa.Call)
+		if !ok || !l.Call.IsInvoke() || l.Call.Method.Name() != "In" {
+			return
+		}
+		for _, d := range g.Blocks {
+			iff, ok := d.Instrs[len(d.Instrs)-1].(*ssa.If)
+			if !ok || len(d.Succs) != 2 {
+				continue
+			}
+			bo, ok := iff.Cond.(*ssa.BinOp)
+			if !ok {
+				continue
+			}
+			for k, t := range d.Succs {
+				if len(t.Preds) != 1 || !(t == b || t.Dominates(b)) {
+					continue
+				}
+				if numInAtLeastOne(bo, k == 0) {
 					guardOK = true
 				}
 			}
@@ -690,6 +708,64 @@ func c11Context(c *Ctx, br *callBridge) {
 	})
 	c.R.Check(rule, "flag-compares-first-parameter", c.P.Pos(g.Pos()), cmpOK && guardOK, "the context test must compare the type of parameter 0 with context.Context (and only for functions that have parameters)")
 	c.R.Floor(rule, 3)
+}
+
+// numInAtLeastOne: does the comparison (taken as holds) imply NumIn() >= 1?
+func numInAtLeastOne(bo *ssa.BinOp, holds bool) bool {
+	isNumIn := func(v ssa.Value) bool {
+		l, ok := v.(*ssa.Call)
+		return ok && l.Call.IsInvoke() && l.Call.Method.Name() == "NumIn"
+	}
+	op, x, y := bo.Op, bo.X, bo.Y
+	if !isNumIn(x) && isNumIn(y) {
+		x, y = y, x
+		switch op {
+		case token.LSS:
+			op = token.GTR
+		case token.GTR:
+			op = token.LSS
+		case token.LEQ:
+			op = token.GEQ
+		case token.GEQ:
+			op = token.LEQ
+		}
+	}
+	if !isNumIn(x) {
+		return false
+	}
+	n, ok := constIntArg(y)
+	if !ok {
+		return false
+	}
+	if !holds {
+		switch op {
+		case token.LSS:
+			op = token.GEQ
+		case token.GTR:
+			op = token.LEQ
+		case token.LEQ:
+			op = token.GTR
+		case token.GEQ:
+			op = token.LSS
+		case token.EQL:
+			op = token.NEQ
+		case token.NEQ:
+			op = token.EQL
+		default:
+			return false
+		}
+	}
+	switch op {
+	case token.GTR:
+		return n >= 0
+	case token.GEQ:
+		return n >= 1
+	case token.NEQ:
+		return n == 0 // NumIn() is never negative
+	case token.EQL:
+		return n >= 1
+	}
+	return false
 }
 
 func c11TargetType(c *Ctx, br *callBridge) {
